@@ -358,7 +358,12 @@ func programs(thorough bool) []program {
 			if !isAdd(a1) {
 				continue
 			}
+			// a2: in the quick tier the operations that observe the pool or add to it again
+			// (thorough: every operation)
 			for a2 := 0; a2 < A; a2++ {
+				if !thorough && !(a2 == 0 || a2 == 4 || a2 == 8 || a2 == 9 || a2 == 13 || a2 == 14 || a2 == 15) {
+					continue
+				}
 				for b := 0; b < A; b++ {
 					add(pre, []int{a1, a2}, []int{b})
 				}
